@@ -46,10 +46,21 @@ void harness(void) {
 	if (r == 0 && vf_n_pop == 0 && VF_EC_PP_INF(&A)) VF_CANARY("C02 add_mix: infinity result reachable");
 #elif defined(VF_FN_sub_mix)
 	r = ec_point_proj_sub_mix(&A, &P, curve);
+	if (r == 0 && P.infinity != 0) VF_CANARY("C02 sub_mix: subtracting infinity reachable");
 #elif defined(VF_FN_add_affine)
 	r = ec_point_proj_add_affine(&P, VF_ALIAS ? &P : &Q, curve);
 #elif defined(VF_FN_sub_affine)
 	r = ec_point_proj_sub_affine(&P, VF_ALIAS ? &P : &Q, curve);
+#elif defined(VF_FN_affine_sub)
+	r = ec_point_affine_sub(&P, &Q, curve);
+	if (r == 0 && Q.infinity != 0) VF_CANARY("C02 affine_sub: subtracting infinity reachable");
+#elif defined(VF_FN_affine_add)
+	r = ec_point_affine_add(&P, VF_ALIAS ? &P : &Q, curve);
+	if (r == 0 && vf_n_mult_digit3 == 1) VF_CANARY("C02 affine_add: tangent path reachable");
+#if !VF_ALIAS
+	if (r == 0 && vf_n_msub >= 1 && !vf_msub_z0 && Q.infinity == 0) VF_CANARY("C02 affine_add: chord path reachable");
+	if (r == 0 && vf_n_msub == 1 && vf_msub_z0 && P.infinity == 1) VF_CANARY("C02 affine_add: opposite points path reachable");
+#endif
 #elif defined(VF_FN_is_eq)
 	VF_NONDET(uint8_t, sel);
 	r = ec_point_is_eq((sel & 1) ? NULL : &P, (sel & 2) ? NULL : ((sel & 4) ? &P : &Q));
